@@ -319,7 +319,9 @@ def run_shard(spec, shard):
         use_probes = r.random() < 0.25
         registry = None
         if use_probes:
-            chosen = r.sample(sorted(k for k in C10REG if k.startswith("p")), 5) + ["length", "count"]
+            # (the probes' results depend on their FIRST argument only: always have some whose first parameter is
+            # LogicalType, so that what a logical argument means is observable)
+            chosen = list(dict.fromkeys(r.sample(sorted(k for k in C10REG if k.startswith("p")), 4) + [r.choice(["pl_l", "pl_v", "plv_l", "pll_l"])])) + ["length", "count"]
             registry = {k: C10REG[k] for k in chosen}
         dn, ds, dnum = Q.pools(doc)
         # float literals with many significant digits (their text form is the subject of this property)
@@ -335,10 +337,16 @@ def run_shard(spec, shard):
         lparam = [n for n, f in (registry or {}).items() if "Logical" in f["params"] and f["ret"] != "Value"]
         if lparam and k < 0.6:
             # a call with a LogicalType parameter: logical expressions as function arguments
-            name = r.choice(lparam)
+            first_l = [n for n in lparam if registry[n]["params"][0] == "Logical"]
+            name = r.choice(first_l) if first_l and r.random() < 0.7 else r.choice(lparam)
             fn = registry[name]
+            def neg_group():
+                # a negated group of two simple existence tests as the whole argument: !(@.a || @.b), !(@.a && @.b)
+                t1 = ["test", ["q", "@", [["child", [["name", r.choice(names[:3])]]]]]]
+                t2 = ["test", ["q", "@", [["child", [["name", r.choice(names[:3])]]]]]]
+                return ["not", ["paren", [r.choice(["or", "and"]), [t1, t2]]]]
             call = ["call", name, [g.argument(p, 1, 2) if p != "Logical" else
-                                   (force_grouping(g, r) if r.random() < 0.6 else g.argument(p, 1, 2))
+                                   (neg_group() if r.random() < 0.3 else force_grouping(g, r) if r.random() < 0.6 else g.argument(p, 1, 2))
                                    for p in fn["params"]]]
             call[2] = [a[1] if a and a[0] == "test" else a for a in call[2]]
             segs = segs + [["child", [["filter", ["test", call] if r.random() < 0.7 else ["not", ["test", call]]]]]]
@@ -354,7 +362,7 @@ def run_shard(spec, shard):
             seg = diff.guided_filter_segment(r, g, segs, doc, registry=registry)
             segs = segs + [seg]
         ast = ["q", "$", segs]
-        if diff.arg_starts_with_not_or_paren(ast):
+        if diff.EXCLUDE_R and diff.arg_starts_with_not_or_paren(ast):
             shard.excluded["R:function-argument-starting-with-!-or-("] += 1
             return
         rd = Q.Renderer(r, 0.1)
@@ -423,7 +431,7 @@ def minimise(case, failure, tier):
         res = abnf.classify(t)
         if res.verdict != abnf.VALID or typecheck.check(res.ast, registry) is not None:
             return False
-        if diff.arg_starts_with_not_or_paren(res.ast):
+        if diff.EXCLUDE_R and diff.arg_starts_with_not_or_paren(res.ast):
             return False
         f = examine(dict(cur, q=t))
         return f is not None and f["bucket"] == bucket
